@@ -19,7 +19,7 @@ class RenderHarness(Harness):
     required_covers = ('ordered-list-item-with-continuation', 'item-number-needs-3-digits', 'nested-list', 'quote-with-list', 'code-in-item', 'loose-list', 'tight-list')
     tv_every = 37
     tv_phase = 0
-    aliases = ('C01', 'C07', 'C10')
+    aliases = ('C01', 'C02', 'C07', 'C10')
 
     def __init__(self, prog, tier='quick'):
         Harness.__init__(self, prog, tier)
